@@ -723,8 +723,11 @@ loop:
 				}
 
 				if fr.Type() == FrameResetStream {
-					// only send go away on idle stream not on an already-closed stream
-					if fr.Stream() > sc.lastID {
+					// only send go away on idle stream not on an already-closed stream.
+					// A stream we refused is closed too, although it never moved
+					// lastID: the peer is free to cancel what it has not yet heard
+					// was refused.
+					if _, closed := closedStrms[fr.Stream()]; !closed && fr.Stream() > sc.lastID {
 						sc.writeGoAway(fr.Stream(), ProtocolError, "RST_STREAM on idle stream")
 					}
 
